@@ -378,6 +378,23 @@ func c20Check(ctx *vfCtx, c c20Case) {
 	} else {
 		ctx.Unjudged("duration 1: immediate validation may legitimately fall on either side of the second boundary")
 	}
+	// what decides is the key and the user: the validating side need not repeat the server name the token
+	// was issued under (validation parameters with that field left out, or carrying another of its names)
+	if ok && c20EffDur(c.Duration) >= 3 {
+		for _, sn := range []string{"", c.Server + ".", "other.example"} {
+			if okN, _ := c20Validate(ctx, key, sn, c.User, is.tok); !okN {
+				if again, _ := c20Validate(ctx, key, c.Server, c.User, is.tok); !again {
+					ctx.Unjudged("the token expired while it was being validated (stalled process)")
+					break
+				}
+				cl := "other"
+				if sn == "" {
+					cl = "empty"
+				}
+				ctx.Fail("C20/valid-refused/issued/validator-server-name-"+cl, "token issued for %d s under server name %q validates for the issuing key and user with ServerName %q but is refused with ServerName %q", c20EffDur(c.Duration), c.Server, c.Server, sn)
+			}
+		}
+	}
 	if !sameKey {
 		if ok2, _ := c20Validate(ctx, key2, c.Server, c.User, is.tok); ok2 {
 			ctx.Fail("C20/wrong-key-accepted/issued", "token issued under key %x validates under key %x", key, key2)
@@ -941,7 +958,7 @@ func c20CheckExpiry(ctx *vfCtx, c c20Case, key, key2 []byte, is *c20Issued) {
 			ctx.Unjudged("expiry within 2 s of the validation instant")
 		}
 	case "exp-abs":
-		// small absolute values: 1970, in the past in any unit
+		// small and negative absolute values: 1970 or before, in the past in any unit
 		v, err := strconv.ParseInt(c.Text, 10, 64)
 		if err != nil || v > 1000000 {
 			ctx.Unjudged("exp-abs literal not a small integer")
@@ -1027,7 +1044,8 @@ var c20Inserts = []string{"\n", "\r\n", "\r", " ", "\t", "=", "A", ".", "%0A", "
 
 var c20Garbage = []string{"", "A", "AA", "AAAA", "Ag", "AgA", "AgAA", "AgIAAAAAAA", "MDAxY2xvY2F0aW9uIA", "====", "\x00", "{}", "AgJ4AAAGIA"}
 
-var c20AbsExpiry = []string{"0", "1", "29", "30", "58", "59", "60", "61", "119", "120", "179", "180", "3600", "86400", "-1", "-60", "1000000"}
+// the last entries sit at the negative edge of int64: "expiry minus now" wraps around there
+var c20AbsExpiry = []string{"-9223372036854775808", "-9223372036854775807", "-9223372036854775000", "-9223372035000000000", "-4611686018427387904", "0", "1", "29", "30", "58", "59", "60", "61", "119", "120", "179", "180", "3600", "86400", "-1", "-60", "1000000"}
 
 var c20JunkExpiry = []string{"", "abc", " ", "1e12", "99999999999999999999999", " 99999999999", "99999999999 ", "+99999999999", "0x7fffffffffff", "9999999999.5", "NaN", "∞", "-", "١٢٣٤٥٦٧٨٩٠١٢",
 	"0099999999999", "-0", "99999999999\n", "99999999999;", "now"}
